@@ -372,3 +372,49 @@ def build_user_filter(cfg):
             return bool(predicate(dna_string))
 
     return UserFilter()
+
+
+# ----------------------------------------------------------------------------------------------- generated graphs
+
+@st.composite
+def generated_graphs(draw, kmin=1, kmax=4, weights=None, thresholds=(1, 1, 2, 2, 3)):
+    """A vertex mask and threshold whose coding graph (by the independent closure oracle) is non-empty, built by
+    construction (the mask is densified until the oracle's graph exists).  Returns {"k", "t", "mask", "rows"} where
+    rows is the ORACLE's graph; evaluators regenerate with the library and compare."""
+    ks = list(range(kmin, kmax + 1))
+    k = draw(st.sampled_from(ks if weights is None else [kk for kk in ks for _ in range(weights.get(kk, 1))]))
+    t = draw(st.sampled_from(list(thresholds)))
+    n = 4 ** k
+    base = {1: [0.35, 0.5, 0.65, 0.8, 0.95], 2: [0.6, 0.7, 0.8, 0.9, 1.0], 3: [0.85, 0.92, 0.97, 1.0]}[t]
+    density = draw(st.sampled_from(base))
+    rng = random.Random(draw(st.integers(0, 2 ** 32 - 1)))
+    bits = [1 if rng.random() < density else 0 for _ in range(n)]
+    for _ in range(40):
+        kept, _, _ = o.largest_closed_subgraph({i for i, b in enumerate(bits) if b}, k, t)
+        if kept:
+            break
+        zeros = [i for i, b in enumerate(bits) if not b]
+        if not zeros:
+            break
+        for i in rng.sample(zeros, max(1, len(zeros) // 3)):
+            bits[i] = 1
+    else:
+        bits = [1] * n
+        kept = set(range(n))
+    return {"k": k, "t": t, "mask": "".join(map(str, bits)), "rows": o.rows_from_mask(kept, k)}
+
+
+def library_graph(spec):
+    """Run the library's generation on a generated_graphs() spec.  Returns (rows, None) or (None, reason)."""
+    import numpy
+    from pbt.core import Raised, import_dsw, lib_call
+    dsw = import_dsw()
+    mask = numpy.array([int(c) for c in spec["mask"]], dtype=int)
+    result = lib_call(dsw.connect_coding_graph, observed_length=spec["k"], vertices=mask, threshold=spec["t"])
+    if isinstance(result, Raised):
+        return None, "generation_raised:" + result.name
+    try:
+        rows = rows_of_accessor(result[1], spec["k"])
+    except ValueError:
+        return None, "generation_malformed"
+    return rows, None
